@@ -4,7 +4,8 @@ open Pyc.Schema Pyc.Proto
 
 /-- requests:
     `tree tok tok …` with tokens `name|attr,attr|nkids` in preorder → `true`/`false` (Pyc.Schema.valid at the root)
-    `emit mesh <nsrc> <nextra> ; <prims…>` / `emit node ; <transforms…> ; <children…>` / `emit source <array>` → child names -/
+    `emit mesh <nsrc> <nextra> ; <prims…>` / `emit node ; <transforms…> ; <children…>` / `emit source <array>` → child names
+    `tech <shading type> ; <children of <technique>…>` → children after Effect.save (Pyc.Schema.saveTechnique) -/
 structure Tok where
   name : String
   attrs : List String
@@ -50,6 +51,7 @@ def handle (_ : Unit) (line : String) : Unit × String :=
       match ns.toNat?, ne.toNat? with
       | some ns, some ne => ((), joinWith " " (emitMesh ns (words a) ne))
       | _, _ => ((), "bad-op")
+    | ["tech", sh] => ((), joinWith " " (saveTechnique (words a) sh))
     | _ => ((), "bad-op")
   | [hd, a, b] =>
     match words hd with
